@@ -164,6 +164,96 @@ func c02PartA(k *fw.K, block int) {
 	}
 }
 
+// c02Walk drives ONE DocumentEx through a sequence of session states, asking for the summary
+// after every change (a UI polling the summary while steps complete, a verifier that runs
+// passive authentication and the completeness check one after the other, a second passive
+// authentication against another trust store): every answer is judged against the state
+// the session has at that moment.
+func c02Walk(k *fw.K, i int) {
+	r := k.RNG
+	e := errors.New("step error")
+	var d document.DocumentEx
+	s := &d.Session
+	steps := 40 + r.IntN(80)
+	trustedSeen, flips := 0, 0
+	prevTrusted := false
+	for st := 0; st < steps; st++ {
+		// change one to three step outcomes; favour reaching a trusted, chip-authentic state first
+		nchg := 1 + r.IntN(3)
+		if st == 0 {
+			s.PassiveAuthResult = &document.PassiveAuthResult{Success: true, Sod: &document.PassiveAuth{}, CardSec: &document.PassiveAuth{}}
+			s.ActiveAuthResult = &document.ActiveAuthResult{Success: true}
+			nchg = 0
+		}
+		for c := 0; c < nchg; c++ {
+			switch r.IntN(8) {
+			case 0:
+				switch r.IntN(5) {
+				case 0:
+					s.PassiveAuthResult = nil
+				case 1:
+					s.PassiveAuthResult = &document.PassiveAuthResult{Success: false}
+				case 2:
+					s.PassiveAuthResult = &document.PassiveAuthResult{Success: false, Sod: &document.PassiveAuth{}, CardSec: &document.PassiveAuth{}}
+				case 3:
+					s.PassiveAuthResult = &document.PassiveAuthResult{Success: true, Sod: &document.PassiveAuth{}}
+				case 4:
+					s.PassiveAuthResult = &document.PassiveAuthResult{Success: true, Sod: &document.PassiveAuth{}, CardSec: &document.PassiveAuth{}}
+				}
+			case 1:
+				if s.PassiveAuthResult != nil { // the same result object updated in place
+					s.PassiveAuthResult.Success = !s.PassiveAuthResult.Success
+				}
+			case 2:
+				s.ActiveAuthResult = c02Result3(r.IntN(3), func(ok bool) *document.ActiveAuthResult { return &document.ActiveAuthResult{Success: ok} })
+			case 3:
+				s.PaceCamResult = c02Result3(r.IntN(3), func(ok bool) *document.PaceCamResult { return &document.PaceCamResult{Success: ok} })
+			case 4:
+				s.ChipAuthResult = c02Result3(r.IntN(3), func(ok bool) *document.ChipAuthResult { return &document.ChipAuthResult{Success: ok} })
+			case 5:
+				if s.DocumentVerifyErr == nil {
+					s.DocumentVerifyErr = e
+				} else {
+					s.DocumentVerifyErr = nil
+				}
+			case 6:
+				if s.PassiveAuthResult != nil && s.PassiveAuthResult.CardSec != nil {
+					s.PassiveAuthResult.CardSec = nil
+				} else if s.PassiveAuthResult != nil {
+					s.PassiveAuthResult.CardSec = &document.PassiveAuth{}
+				}
+			case 7:
+				s.PassiveAuthErr, s.ActiveAuthErr, s.ChipAuthErr = nil, nil, nil
+				if r.IntN(2) == 0 {
+					s.PassiveAuthErr = e
+				}
+				if r.IntN(2) == 0 {
+					s.ActiveAuthErr = e
+				}
+			}
+		}
+		desc := func() string {
+			return fmt.Sprintf("walk %d step %d of one DocumentEx: pa=%+v verifyErr=%v aa=%+v cam=%+v ca=%+v", i, st, s.PassiveAuthResult, s.DocumentVerifyErr, s.ActiveAuthResult, s.PaceCamResult, s.ChipAuthResult)
+		}
+		if !c02Judge(k, &d, desc) {
+			return
+		}
+		t := d.Summary().DataTrusted
+		if t {
+			trustedSeen++
+		}
+		if st > 0 && t != prevTrusted {
+			flips++
+		}
+		prevTrusted = t
+	}
+	k.AddEvals(int64(steps - 1))
+	k.CountN("walk_steps", int64(steps))
+	k.CountN("walk_steps_trusted", int64(trustedSeen))
+	k.CountN("walk_trust_verdict_changes", int64(flips))
+	k.Nontrivial(fmt.Sprintf("walk|%d|%d|%d", i, steps, flips))
+}
+
 var c02Scenarios = []string{"clone-no-keys", "clone-own-keys", "strip-dg14", "strip-dg15", "strip-both", "downgrade-cardaccess", "downgrade-cardaccess-extra-info", "untrusted-issuer", "genuine"}
 
 func c02PartB(k *fw.K, i int) {
@@ -359,6 +449,8 @@ func c02PartB(k *fw.K, i int) {
 
 func runC02(c *fw.Ctx) {
 	c.Cases(15, func(i int) string { return fmt.Sprintf("partA|block=%d", i) }, func(i int, k *fw.K) { c02PartA(k, i) })
+	nw := c.Pick(200, 20000)
+	c.Cases(nw, func(i int) string { return fmt.Sprintf("walk|i=%d", i) }, func(i int, k *fw.K) { c02Walk(k, i) })
 	n := c.Pick(240, 24000)
 	c.Cases(n, func(i int) string { return fmt.Sprintf("partB|%s i=%d", c02Scenarios[i%len(c02Scenarios)], i) }, func(i int, k *fw.K) { c02PartB(k, i) })
 }
